@@ -37,7 +37,7 @@ int main() {
 	probe("integer64.rem.maxneg_by_minus1", [&] { integer<64, uint64_t> a, b; a.setbits(0x8000000000000000ull); b = (int)m1; a %= b; volatile long long r = (long long)a; (void)r; });
 	probe("areal.to_native.es8.shift", [&] { areal<16, 8, uint16_t> a; a.setbits(0x0080); volatile double d = double(a); (void)d; });
 #if defined(__x86_64__) && __LDBL_MANT_DIG__ == 64 && LONG_DOUBLE_SUPPORT
-	// convert_ieee754<long double>: a value in [minpos/2, minpos) of a target with subnormals and fbits < 63 shifts by 63 - fbits + fbits + 1 = 64
+	// convert_ieee754<long double>: a value in [minpos/2, minpos) of a target with subnormals and fbits < 63 needs a shift count of 63 - fbits + fbits + 1 = 64 (guarded since the repair)
 	probe("cfloat.from_long_double.shift64", [&] { volatile long double x = 0x1p-10L; cfloat<8, 4, uint8_t, true, false, false> c; c = (long double)x; volatile unsigned b = c.block(0); (void)b; });
 	// convert_ieee754 'source is subnormal' branch: `mask = 0x00FF'FFFFu >> (fbits + exponent + subnormal_reciprocal_shift[es] + 1)` — a
 	// 32-bit value shifted by fbits = 48 for a subnormal long double into cfloat<64,15> (the mask is not used afterwards)
